@@ -158,6 +158,26 @@ func TestVerifBounded(t *testing.T) {
 			}
 		}
 	}
+	// 2b. the gate is strict: a p-value equal to the threshold is not significant, one just below it is
+	for i, a := range samples {
+		for j, b := range samples {
+			ra, rb := verifRetained(a), verifRetained(b)
+			r, err := stats.MannWhitneyUTest(ra, rb, stats.LocationDiffers)
+			if err != nil || !(r.P > 0 && r.P < 1) || stats.Mean(ra) == stats.Mean(rb) {
+				continue
+			}
+			for _, alpha := range []float64{r.P, math.Nextafter(r.P, 2)} {
+				n++
+				c := &Collection{DeltaTest: UTest, Alpha: alpha}
+				c.AddConfig("old", []byte(verifInput("X", a, "ns/op")))
+				c.AddConfig("new", []byte(verifInput("X", b, "ns/op")))
+				row := c.Tables()[0].Rows[0]
+				if shown, want := row.Delta != "~", r.P < alpha; shown != want {
+					bad("samples %d/%d: p=%v alpha=%v: delta %q shown=%v, want shown=%v (a change is significant only if p < alpha)", i, j, r.P, alpha, row.Delta, shown, want)
+				}
+			}
+		}
+	}
 	// 3. rows: first-appearance order, stable sorting with ties, geomean of non-zero means
 	var in1, in2 strings.Builder
 	names := []string{}
@@ -215,5 +235,5 @@ func TestVerifBounded(t *testing.T) {
 	if last := gr[len(gr)-1]; last.Benchmark != "[Geo mean]" || math.Abs(last.Metrics[0].Mean-4) > 1e-12 {
 		bad("geomean row %+v, want the geometric mean 4 of the non-zero means", last)
 	}
-	fmt.Printf("BOUNDED-RESULT {\"cases\": %d, \"failures\": %d, \"bound\": \"10 samples (constant non-representable values, outliers on either side, singletons): retained values and min<=mean<=max; every ordered pair x 3 delta tests x 2 metrics: delta gate, percentage, direction, note; 20-row table: first-appearance order, stability of 3 orders, geomean row\", \"exhaustive\": false}\n", n, fails)
+	fmt.Printf("BOUNDED-RESULT {\"cases\": %d, \"failures\": %d, \"bound\": \"10 samples (constant non-representable values, outliers on either side, singletons): retained values and min<=mean<=max; every ordered pair x 3 delta tests x 2 metrics: delta gate (incl. p exactly at the threshold), percentage, direction, note; 20-row table: first-appearance order, stability of 3 orders, geomean row\", \"exhaustive\": false}\n", n, fails)
 }
